@@ -65,6 +65,9 @@ func TestC04(t *testing.T) {
 		cases = append(cases, mon.CaseSpec{Name: "multictx", Spec: spec{NCtx: 2 + rnd.Intn(4), NPipes: 1 + rnd.Intn(3), RetryMs: 3600000, Start: "multictx"}})
 	}
 	for i := 0; i < n/12; i++ {
+		cases = append(cases, mon.CaseSpec{Name: "supersede-race", Spec: spec{NCtx: 1 + rnd.Intn(3), NPipes: 2, RetryMs: 10000, Start: "supersede-race"}})
+	}
+	for i := 0; i < n/12; i++ {
 		cases = append(cases, mon.CaseSpec{Name: "answered", Spec: spec{NCtx: 1 + rnd.Intn(3), NPipes: 1 + rnd.Intn(3), RetryMs: []int{0, 30, 60, 3600000}[i%4], Start: "answered"}})
 	}
 	r.Run(cases, func(c *mon.Case) {
@@ -75,6 +78,10 @@ func TestC04(t *testing.T) {
 		}
 		if sp.Start == "answered" {
 			runAnswered(c, sp)
+			return
+		}
+		if sp.Start == "supersede-race" {
+			runSupersedeRace(c, sp)
 			return
 		}
 		runScript(c, sp)
